@@ -136,8 +136,14 @@ impl LocalInboundStats {
         self.packets_received += 1;
 
         // RFC 3550 A.8 interarrival jitter (arrival in RTP timestamp units).
-        static START: std::sync::OnceLock<Instant> = std::sync::OnceLock::new();
-        let start = START.get_or_init(Instant::now);
+        #[cfg(not(rustrtc_verif))]
+        let start = {
+            static START: std::sync::OnceLock<Instant> = std::sync::OnceLock::new();
+            START.get_or_init(Instant::now)
+        };
+        // a process-wide origin would leak between simulated runs sharing a worker process
+        #[cfg(rustrtc_verif)]
+        let start = &crate::verif_hooks::clock_t0();
         let arrival_units =
             (now.duration_since(*start).as_secs_f64() * self.clock_rate as f64) as u32;
 
